@@ -49,9 +49,9 @@ def jobs(pid, tier):
                 vrt('C07', [r'mx4_.*'], bound=2, workers=16)]
     if pid == 'C01':
         if q:
-            return [vrt('C01', [r'once_(int|counted)_[a-z]+-[a-z]+_(none|wait)', r'once_(int|counted|void)_nop_.*',
+            return [vrt('C01', [r'once_(int|counted)_[a-z]+-[a-z]+_(none|wait)', r'once_(int|counted|void)_(nop|assign)_.*',
                                 r'once_(moveonly|ref|void)_(val-val|val-exc|val-mvcall|drop-mvdie|exc-mvdie)_(coro|hasv)'], bound=2, workers=2)]
-        return [vrt('C01', [r'once_[a-z]+_[a-z]+-[a-z]+_none', r'once_[a-z]+_nop_.*'], unbounded=True, workers=2),
+        return [vrt('C01', [r'once_[a-z]+_[a-z]+-[a-z]+_none', r'once_[a-z]+_(nop|assign)_.*'], unbounded=True, workers=2),
                 vrt('C01', [r'once_[a-z]+_[a-z]+-[a-z]+_(wait|coro|hasv)'], bound=3, workers=4),
                 vrt('C01', [r'once_[a-z]+_[a-z]+-[a-z]+-[a-z]+_.*'], bound=3, workers=8)]
     if pid == 'C02':
